@@ -1,0 +1,30 @@
+//go:build verif
+
+package server
+
+// Verification hooks, enabled with `-tags verif`. The harness (which is not
+// part of this repository) installs the function variables.
+
+var (
+	verifEventFn         func(kind string, args ...any)
+	verifYieldFn         func(point string, args ...any)
+	verifTargetCreatedFn func(t *Target)
+)
+
+func verifEvent(kind string, args ...any) {
+	if fn := verifEventFn; fn != nil {
+		fn(kind, args...)
+	}
+}
+
+func verifYield(point string, args ...any) {
+	if fn := verifYieldFn; fn != nil {
+		fn(point, args...)
+	}
+}
+
+func verifTargetCreated(t *Target) {
+	if fn := verifTargetCreatedFn; fn != nil {
+		fn(t)
+	}
+}
